@@ -362,8 +362,10 @@ class TV:
         if pro and pro[0][0] == "if":
             s = pro.pop(0)
             has_end_check = True
-        if not (len(pro) == 2 and pro[0][0] == "decl" and pro[0][2] == "inval" and pro[1] [0] == "label" and pro[1][1] == "repeatswitch"):
-            self.fail("coherence", "feed/prologue", "feed prologue is not `[end check] uint8_t inval = *start; repeatswitch: switch`")
+        labels = [x[1] for x in pro if x[0] == "label"]
+        if not (pro and pro[-1][0] == "label" and pro[-1][1] == "repeatswitch" and labels == ["repeatswitch"] and any(x[0] == "decl" and x[2] == "inval" for x in pro)):
+            # (what the prologue computes is checked semantically below; here only: re-dispatch enters directly at the switch)
+            self.fail("coherence", "feed/prologue", "feed prologue does not end with the single label `repeatswitch:` directly in front of the switch (after declaring inval)")
             ok = False
         if sp["switch_expr"] != ("member", ("id", "state"), "state", True):
             self.fail("coherence", "feed/dispatch-on-state", "the switch does not dispatch on state->state")
